@@ -373,7 +373,7 @@ class XmlVar(MetaMixin):
             if (
                 (not check and uri is None)
                 or check in (uri, NamespaceType.ANY_NS)
-                or (check and check[0] == "!" and check[1:] != uri)
+                or (check and check[0] == "!" and check[1:] != (uri or ""))
             ):
                 return True
 
